@@ -23,7 +23,10 @@ import time
 from . import common, delta_util
 from .common import log
 
+# The algorithm model A is instantiated with the constants of the code under test (capacity factor, complete
+# expectation texts); they only matter for MODEL-DRIFT notes -- R does not mention them.
 EMIT = {"quick": "MC_DeltaBuffers_emit_quick.cfg", "thorough": "MC_DeltaBuffers_emit_thorough.cfg"}
+EMIT_PINNED = {"quick": "MC_DeltaBuffers_emit_pinned_quick.cfg", "thorough": "MC_DeltaBuffers_emit_pinned_thorough.cfg"}
 SEQ = {"quick": "DeltaSeq_quick.cfg", "thorough": "DeltaSeq_thorough.cfg"}
 HOLDS = {"quick": [("MC_DeltaBuffers_k4_quick.cfg", 8), ("MC_DeltaBuffers_k4_lean.cfg", 4)],
          "thorough": [("MC_DeltaBuffers_k4_thorough.cfg", 8), ("MC_DeltaBuffers_k4_lean.cfg", 4)]}
@@ -255,9 +258,16 @@ def run(rep, tier, seed, selftest):
             (cfg, what, "NoCrash VIOLATED -- the defect is exhibited by the model" if r.violated else "no violation", r.distinct))
         model[cfg] = "violated:%s" % r.violated if r.violated else "holds"
     # ---- 2. spec -> impl: everything TLC emits -----------------------------------------------------
-    r = common.tlc("MC_DeltaBuffers", EMIT[tier], workers=8, timeout=3000, heap="12g", tag="C15-emit")
+    probe = delta_util.run_cases("C15", "probe", [{"g": "src", "src": "fn f();"}], events=True, evfilter=["nodecap"])
+    nc = [e for e in probe[0].get("ev", []) if e["ev"] == "nodecap"]
+    pinned = bool(nc) and nc[0]["cap"] == 5 + 2 * nc[0]["toks"]
+    emit_cfg = (EMIT_PINNED if pinned else EMIT)[tier]
+    strict_cfg = "Trace_DeltaBuffers_strict_pinned.cfg" if pinned else "Trace_DeltaBuffers_strict.cfg"
+    log("[probe] node capacity of the code under test: %s -> algorithm model constants of the %s tree" %
+        ("%d for %d tokens" % (nc[0]["cap"], nc[0]["toks"]) if nc else "?", "pinned" if pinned else "fixed"))
+    r = common.tlc("MC_DeltaBuffers", emit_cfg, workers=8, timeout=3000, heap="12g", tag="C15-emit")
     log("[tlc] MC_DeltaBuffers/%s: %d states, %d derivations emitted, %.1fs, %s" %
-        (EMIT[tier], r.distinct, len(r.cases), r.wall, "protocol invariants hold" if r.ok else "INVARIANT %s VIOLATED" % r.violated))
+        (emit_cfg, r.distinct, len(r.cases), r.wall, "protocol invariants hold" if r.ok else "INVARIANT %s VIOLATED" % r.violated))
     if not r.ok:
         rep.note_drift("emission model violates %s" % r.violated)
     tlc_states += r.distinct
@@ -269,17 +279,28 @@ def run(rep, tier, seed, selftest):
     log("[tlc] DeltaSeq/%s: %d token sequences x %d contexts, %.1fs" % (SEQ[tier], len(rs.cases), len(ctxs), rs.wall))
     tlc_states += rs.distinct
     log("[time] %.0fs" % (time.time() - rep.t0))
-    d_desc = [{"g": "toks", "toks": c["toks"], "ctx": "top", "wf": c["wf"], "badlex": c["bad"] > 0} for c in derivs]
-    s_desc = [{"g": "toks", "toks": c["toks"], "ctx": ctx, "badlex": c["badlex"]} for c in rs.cases for ctx in ctxs]
-    emitted = d_desc + s_desc
+    def d_desc_of(c):
+        return {"g": "toks", "toks": c["toks"], "ctx": "top", "wf": c["wf"], "badlex": c["bad"] > 0}
+
+    n_seq = len(rs.cases) * len(ctxs)
+    n_emitted = len(derivs) + n_seq
+
+    def emitted_at(k):
+        if k < len(derivs):
+            return d_desc_of(derivs[k])
+        q = k - len(derivs)
+        c = rs.cases[q // len(ctxs)]
+        return {"g": "toks", "toks": c["toks"], "ctx": ctxs[q % len(ctxs)], "badlex": c["badlex"]}
+
     # a sample of the emitted cases is recorded with all hook events and trace-validated as well
-    sample = set(rnd.sample(range(len(emitted)), min(TRACE_SAMPLE[tier], len(emitted))))
-    obs_e = delta_util.run_cases("C15", "emitted", emitted, events=True, evfilter=["toklen", "nodecap", "nodelen", "nodefull"])
+    sample = set(rnd.sample(range(n_emitted), min(TRACE_SAMPLE[tier], n_emitted)))
     failures = {}     # (kind, signature) -> list of (size, desc, obs)
     problems = []
     nontrivial = set()
     agree = 0
     skipped = 0
+    emitted_samples = []
+    selftest_cases = {}
 
     def classify(desc, obs):
         nonlocal skipped
@@ -288,34 +309,54 @@ def run(rep, tier, seed, selftest):
             return
         sig = signature(obs)
         if sig:
-            failures.setdefault(sig, []).append((obs.get("len") or len(json.dumps(desc)), desc, obs))
+            lst = failures.setdefault(sig, [])
+            lst.append((obs.get("len") or len(json.dumps(desc)), desc, {k: v for k, v in obs.items() if k != "ev"}))
+            if len(lst) > 2000:       # keep the smallest witnesses only
+                lst.sort(key=lambda x: x[0])
+                del lst[200:]
         for kind, msg in verdict_problems(desc, obs):
             problems.append((kind, desc, obs, msg))
         if obs.get("ntok", 0) > 1 and (obs.get("stage") not in ("lex",) or obs.get("badlex") or desc.get("badlex")):
             nontrivial.add(case_key(desc))
 
-    for k, (desc, o) in enumerate(zip(emitted, obs_e)):
-        classify(desc, o)
-        if k < len(derivs):
-            c = derivs[k]
-            # A-level: the model's prediction of the run (MODEL-DRIFT only)
-            nl = [e for e in o.get("ev", []) if e["ev"] == "nodelen"]
-            d = []
-            predicted_crash = c["crash"]
-            if predicted_crash != (o.get("o") == "panic"):
-                d.append("model predicts %s, observed %s" % ("a panic (%s)" % c["how"] if predicted_crash else c["outcome"], o.get("o")))
-            elif not predicted_crash and c["bad"] == 0:
-                if not nl or nl[0]["pushes"] != c["nodes"]:
-                    d.append("model predicts %d nodes, the parser pushed %s" % (c["nodes"], nl[0]["pushes"] if nl else None))
-                if c["outcome"] != o.get("o"):
-                    d.append("model predicts %s, observed %s" % (c["outcome"], o.get("o")))
-            if d:
-                rep.note_drift("%s: %s" % (" ".join(c["toks"]), "; ".join(d)))
-            else:
-                agree += 1
-    log("[time] %.0fs" % (time.time() - rep.t0))
+    failure_counts = {}
+    CHUNK = 150000
+    for base in range(0, n_emitted, CHUNK):
+        part = [emitted_at(k) for k in range(base, min(base + CHUNK, n_emitted))]
+        obs_part = delta_util.run_cases("C15", "emitted", part, events=True, evfilter=["toklen", "nodecap", "nodelen", "nodefull"])
+        for j, (desc, o) in enumerate(zip(part, obs_part)):
+            k = base + j
+            classify(desc, o)
+            sig = signature(o)
+            if sig:
+                failure_counts[sig] = failure_counts.get(sig, 0) + 1
+            if len(emitted_samples) < 3 and k % 997 == 3:
+                emitted_samples.append({"input": case_key(desc), "wf": desc.get("wf"), "badlex": desc.get("badlex"),
+                                        "observed": {x: o.get(x) for x in ("o", "codes", "ntok", "nnode", "panic")}})
+            if "ok" not in selftest_cases and desc.get("wf") and o.get("o") == "accepted":
+                selftest_cases["ok"] = (desc, o)
+            if "bad" not in selftest_cases and desc.get("badlex") and o.get("o") == "rejected":
+                selftest_cases["bad"] = (desc, o)
+            if k < len(derivs):
+                c = derivs[k]
+                # A-level: the model's prediction of the run (MODEL-DRIFT only)
+                nl = [e for e in o.get("ev", []) if e["ev"] == "nodelen"]
+                d = []
+                predicted_crash = c["crash"]
+                if predicted_crash != (o.get("o") == "panic"):
+                    d.append("model predicts %s, observed %s" % ("a panic (%s)" % c["how"] if predicted_crash else c["outcome"], o.get("o")))
+                elif not predicted_crash and c["bad"] == 0:
+                    if not nl or nl[0]["pushes"] != c["nodes"]:
+                        d.append("model predicts %d nodes, the parser pushed %s" % (c["nodes"], nl[0]["pushes"] if nl else None))
+                    if c["outcome"] != o.get("o"):
+                        d.append("model predicts %s, observed %s" % (c["outcome"], o.get("o")))
+                if d:
+                    rep.note_drift("%s: %s" % (" ".join(c["toks"]), "; ".join(d)))
+                else:
+                    agree += 1
+        del obs_part
     log("[replay] %d emitted inputs (%d derivations, %d sequences x contexts) run on the real front end; "
-        "model agreement on derivations %d/%d" % (len(emitted), len(derivs), len(s_desc), agree, len(derivs)))
+        "model agreement on derivations %d/%d" % (n_emitted, len(derivs), n_seq, agree, len(derivs)))
     # ---- 3. random families ----------------------------------------------------------------------
     corpus = common.pvh(["corpus"], exe_name="pvh_delta", env={"PENNE_REPO": common.REPO}).stdout.split()
     counts = dict(RANDOM[tier])
@@ -327,6 +368,9 @@ def run(rep, tier, seed, selftest):
     for desc, o in zip(rdesc, obs_r):
         desc2 = dict(desc, wf=o.get("wf"), badlex=o.get("badlex"))
         classify(desc2, o)
+        sig = signature(o)
+        if sig:
+            failure_counts[sig] = failure_counts.get(sig, 0) + 1
     by_family = {}
     for desc, o in zip(rdesc, obs_r):
         fam = by_family.setdefault(desc["g"], {})
@@ -337,10 +381,12 @@ def run(rep, tier, seed, selftest):
     for (kind, sig), items in sorted(failures.items()):
         items.sort(key=lambda x: x[0])
         size, desc, o = items[0]
-        rep.violation(kind, sig, {"case": desc, "observed": {k: v for k, v in o.items() if k != "ev"}, "inputs_with_this_signature": len(items),
+        rep.violation(kind, sig, {"case": desc, "observed": {k: v for k, v in o.items() if k != "ev"},
+                                  "inputs_with_this_signature": failure_counts.get((kind, sig), len(items)),
                                   "other_witnesses": [case_key(d) for _, d, _ in items[1:6]],
                                   "message": "the front end %s (%s) on %d inputs; smallest witness: %s" %
-                                             ("panicked" if kind == "delta-panic" else "died or hung", sig, len(items), case_key(desc)),
+                                             ("panicked" if kind == "delta-panic" else "died or hung", sig,
+                                              failure_counts.get((kind, sig), len(items)), case_key(desc)),
                                   "how": "bin/check C15 --replay <this file>"})
     for kind, desc, o, msg in problems:
         rep.violation(kind, case_key(desc), {"case": desc, "observed": {k: v for k, v in o.items() if k != "ev"}, "message": msg,
@@ -350,7 +396,7 @@ def run(rep, tier, seed, selftest):
     # ---- 5. impl -> spec: the buffer protocol of every recorded run, validated by TLC ------------------
     sample_idx = sorted(sample)
     if sample_idx:
-        sdesc = [emitted[k] for k in sample_idx]
+        sdesc = [emitted_at(k) for k in sample_idx]
         sobs = delta_util.run_cases("C15", "sample", sdesc, events=True)
     else:
         sdesc, sobs = [], []
@@ -383,26 +429,26 @@ def run(rep, tier, seed, selftest):
         "%d accepted; %d recordings truncated by a panic/crash (reported above by signature; TLC rejects them: %s)" %
         (len(good_runs), trace_events, traces_ok, crashed_runs[0], truncated_rejected))
     strict_files = delta_util.write_traces(os.path.join(common.WORK, "C15-strict"), good_runs, 12)
-    strict = common.tlc_traces("Trace_DeltaBuffers", "Trace_DeltaBuffers_strict.cfg", strict_files)
+    strict = common.tlc_traces("Trace_DeltaBuffers", strict_cfg, strict_files)
     strict_ok = sum(1 for s in strict if s["accepted"])
     for s in strict:
         if not s["accepted"]:
             rep.note_drift("strict (capacity formulas) trace validation stops at line %d of %s" % (s["matched"] + 1, s["file"]))
     log("[time] %.0fs" % (time.time() - rep.t0))
-    log("[trace] strict mode (capacity formulas of the pinned tree): %d/%d files accepted" % (strict_ok, len(strict_files)))
+    log("[trace] strict mode (capacity formulas, %s): %d/%d files accepted" % (strict_cfg, strict_ok, len(strict_files)))
     # ---- 5b. optional stricter observer -----------------------------------------------------------
     miri = None
     if tier == "thorough" or os.environ.get("VERIF_MIRI") == "1":
-        one = [x for x in s_desc if len(x["toks"]) <= 1]
-        some = [d_desc[k] for k in sorted(rnd.sample(range(len(d_desc)), min(2400 if tier == "thorough" else 400, len(d_desc))))]
+        one = [emitted_at(k) for k in range(len(derivs), n_emitted) if len(emitted_at(k)["toks"]) <= 1]
+        some = [d_desc_of(derivs[k]) for k in sorted(rnd.sample(range(len(derivs)), min(2400 if tier == "thorough" else 400, len(derivs))))]
         miri = miri_observer(rep, one + some)
     # ---- 6. self-tests ---------------------------------------------------------------------------
     selftests = {}
     if selftest:
-        ok_case = next((d, o) for d, o in zip(emitted, obs_e) if d.get("wf") and o.get("o") == "accepted")
+        ok_case = selftest_cases["ok"]
         flipped = dict(ok_case[1], o="rejected", codes=[300])
         selftests["rejected_wellformed_detected"] = bool(verdict_problems(ok_case[0], flipped))
-        bad_case = next((d, o) for d, o in zip(emitted, obs_e) if d.get("badlex") and o.get("o") == "rejected")
+        bad_case = selftest_cases["bad"]
         flipped = dict(bad_case[1], o="accepted", codes=[])
         selftests["accepted_invalid_lexeme_detected"] = bool(verdict_problems(bad_case[0], flipped))
         selftests["panic_is_a_failure"] = signature({"o": "panic", "panic": "x"}) is not None
@@ -469,11 +515,8 @@ def run(rep, tier, seed, selftest):
             if not ok:
                 raise common.ToolError("self-test %s failed" % name)
     # ---- 7. evidence ------------------------------------------------------------------------------
-    evaluations = len(emitted) + len(rdesc)
-    samples = []
-    for k in sorted(rnd.sample(range(len(emitted)), 3)):
-        samples.append({"input": case_key(emitted[k]), "wf": emitted[k].get("wf"), "badlex": emitted[k].get("badlex"),
-                        "observed": {x: obs_e[k].get(x) for x in ("o", "codes", "ntok", "nnode", "panic")}})
+    evaluations = n_emitted + len(rdesc)
+    samples = list(emitted_samples)
     for k in sorted(rnd.sample(range(len(rdesc)), 3)):
         samples.append({"input": case_key(rdesc[k]), "head": obs_r[k].get("head", "")[:80], "len": obs_r[k].get("len"),
                         "observed": {x: obs_r[k].get(x) for x in ("o", "codes", "ntok", "nnode", "panic", "how")}})
@@ -490,11 +533,11 @@ def run(rep, tier, seed, selftest):
         "runs_truncated_by_reported_crash": crashed_runs[0],
         "strict_trace_files_accepted": "%d/%d" % (strict_ok, len(strict_files)),
         "emitted_derivations": len(derivs),
-        "emitted_sequences_x_contexts": len(s_desc),
+        "emitted_sequences_x_contexts": n_seq,
         "model_agreement_on_derivations": "%d/%d" % (agree, len(derivs)),
         "random_inputs": counts,
         "outcomes_by_family": by_family,
-        "failure_signatures": {"%s: %s" % k: len(v) for k, v in failures.items()},
+        "failure_signatures": {"%s: %s" % k: v for k, v in failure_counts.items()},
         "model_checking": model,
         "selftests": selftests,
         "miri_observer": miri,
